@@ -1775,9 +1775,11 @@ impl World {
                             _ => items[&k].clone(),
                         };
                         let dg = digest_bytes(&body);
-                        let name = match if force_matching_name { 2 } else { g.below(11) } {
+                        let name = match if force_matching_name { 2 } else { g.below(12) } {
                             0 => format!("{}-{}.delta", 1 + g.below(3), "ab".repeat(32)),
                             // an index beyond u32 / beyond u64 in a block name
+                            // the digest is right, the index is not (a valid block's bytes copied under another index)
+                            11 => format!("{}-{}.delta", 1 + g.below(9), dg),
                             9 => format!("4294967296-{}.delta", "cd".repeat(32)),
                             10 => format!("99999999999999999999-{}.delta", &dg[..8]),
                             1 => format!("{}.pack", "cd".repeat(32)),
@@ -2235,7 +2237,13 @@ fn causally_complete(intact: &Items) -> Items {
                     }
                 };
                 if let (Some(ps), Some(ks)) = (strs("p"), strs("k")) {
-                    parents.insert(id.to_string(), (ps, ks));
+                    // the index in the name must be one more than the highest parent index (identifier / index
+                    // consistency: a valid block copied under another index is junk)
+                    let idx = |s: &str| s.split('-').next().and_then(|i| i.parse::<u64>().ok());
+                    let want = ps.iter().filter_map(|p| idx(p)).max().unwrap_or(0) + 1;
+                    if idx(id) == Some(want) {
+                        parents.insert(id.to_string(), (ps, ks));
+                    }
                 }
             }
         }
